@@ -11,13 +11,32 @@ TABLES = ("x_pos", "y_pos", "derivatives")
 INF = 10 ** 6
 
 
+def _count_as_searchsorted(t):
+    """For the sorted knot tables: sum(pos <= v) is searchsorted(pos, v, side='right'), sum(pos < v) is
+    searchsorted(pos, v) (the number of knots not above / strictly below v)."""
+    from ..terms import norm_call, subst
+
+    def f(s):
+        if s[0] == "call" and s[1] == ("ext", "jax.numpy.sum"):
+            kw = dict(s[3])
+            a = kw.get("a")
+            if set(kw) <= {"a"} and a is not None and a[0] == "cmp" and a[1] in ("<=", "<") and a[2][0] == "attr" \
+                    and a[2][1] == SELF and a[2][2] in ("x_pos", "y_pos"):
+                kws = {"a": a[2], "v": a[3]}
+                if a[1] == "<=":
+                    kws["side"] = C("right")
+                return norm_call(("ext", "jax.numpy.searchsorted"), (), kws)
+        return None
+    return subst(t, f)
+
+
 def spline_method_term(prog: Program, name: str):
     c = prog.cls(SPLINE)
     if name == "derivative":
         from ..terms import Interp
         it = Interp(prog)
-        return it.eval_method(c, "derivative", [X])
-    return method_term(prog, c, name)
+        return _count_as_searchsorted(it.eval_method(c, "derivative", [X]))
+    return _count_as_searchsorted(method_term(prog, c, name))
 
 
 def table_subscripts(t):
